@@ -262,6 +262,45 @@ func TestC11Hostile(t *testing.T) {
 			failf(t, "C11", map[string]any{"history": x.Log, "rpc": cc.ViaRPC, "unstable": cc.Unstable}, "%s", msg)
 		}
 		nhostile, nreached := 0, 0
+		// survival: whatever the replies were (a wrong one ends the comparison with the reference, not the server's duty to
+		// survive): every directory can still be listed and searched, now and after a restart
+		survived := false
+		survival := func(t *rapid.T) {
+			if survived {
+				return
+			}
+			survived = true
+			for round := 0; round < 2; round++ {
+				for _, dn := range x.M.LiveKind(nt.NF3DIR) {
+					if dn.Opaque || len(dn.FH) == 0 {
+						continue
+					}
+					dfh := nt.Nfs_fh3{Data: dn.FH}
+					err := x.call(func() {
+						api := x.S.API()
+						api.NFSPROC3_READDIR(nt.READDIR3args{Dir: dfh, Count: 8192})
+						api.NFSPROC3_READDIRPLUS(nt.READDIRPLUS3args{Dir: dfh, Dircount: 8192, Maxcount: 8192})
+						api.NFSPROC3_LOOKUP(nt.LOOKUP3args{What: nt.Diropargs3{Dir: dfh, Name: "no-such-name"}})
+						api.NFSPROC3_CREATE(nt.CREATE3args{Where: nt.Diropargs3{Dir: dfh, Name: "survival-probe"}})
+						api.NFSPROC3_REMOVE(nt.REMOVE3args{Object: nt.Diropargs3{Dir: dfh, Name: "survival-probe"}})
+					})
+					if err != nil {
+						if k := errKind(err); k == "panic" || k == "hang" {
+							fail(t, fmt.Sprintf("after the history, listing/searching directory %s: %v", dn.Path(), err))
+						}
+						break
+					}
+				}
+				if round == 0 {
+					if err := x.call(func() { x.S.Restart() }); err != nil {
+						if k := errKind(err); k == "panic" || k == "hang" {
+							fail(t, fmt.Sprintf("restart after the history: %v", err))
+						}
+						break
+					}
+				}
+			}
+		}
 		judge := func(t *rapid.T, err error) {
 			if err == nil {
 				return
@@ -270,6 +309,9 @@ func TestC11Hostile(t *testing.T) {
 				fail(t, err.Error())
 			}
 			cut = true // a wrong reply is another property's business
+			if errKind(err) != "slow" {
+				survival(t)
+			}
 		}
 		base := g.Actions(judge)
 		acts := map[string]func(*rapid.T){}
@@ -367,7 +409,14 @@ func TestC11Hostile(t *testing.T) {
 					excluded++
 					other = d
 				}
-				judge(t, x.Rename(d, name, other, genHostileName(t)))
+				if d.N != nil && rapid.IntRange(0, 9).Draw(t, "existing_source") < 7 {
+					name = g.OldName(t, d.N) // an existing entry moved to a hostile name
+				}
+				to := genHostileName(t)
+				if d.N != nil && d.N.Children[name] != nil && len(to) > 112 {
+					St.Class("rename_of_an_existing_entry_to_an_overlong_name")
+				}
+				judge(t, x.Rename(d, name, other, to))
 			}
 		}
 		steps := 0
@@ -387,6 +436,7 @@ func TestC11Hostile(t *testing.T) {
 		if !cut {
 			judge(t, x.CompareAll())
 		}
+		survival(t)
 		St.Eval(nhostile)
 		St.ClassN("hostile_calls", nhostile)
 		if cut {
